@@ -33,7 +33,7 @@ const CORRUPTED_TEXT_FUEL: u64 = 200_000;
 
 fn n_project_units(tier: &str) -> u64 {
     if tier == "thorough" {
-        6000
+        30_000
     } else {
         500
     }
